@@ -6,7 +6,7 @@ create_server / serve captured; no socket is opened).
 """
 import io
 
-from vf.e1 import harness, untraced
+from vf.e1 import Stalled, cpu_deadline, harness, untraced
 from vf import flags as _flags
 from vf import detloop
 
@@ -203,8 +203,12 @@ def framers_agree(h0: int, h1: int, d0: int, d1: int, d2: int, g0: int, e0: int,
         a2 = mk_packet(t1, 1, g0, h1, [e0])
         wire = a[1:] + a2[1:]
         c = min(cut, len(wire) - 1)
-        sp.feed(wire[:c])
-        sp.feed(wire[c:])
+        try:
+            with cpu_deadline(20):       # a splitter that never returns is a counterexample, not a time-out
+                sp.feed(wire[:c])
+                sp.feed(wire[c:])
+        except Stalled:
+            return False
         if [bytes(x) for x in out] != [a[1:], a2[1:]]:
             return False
     return True
@@ -229,8 +233,12 @@ def long_acl_packets(h0: int, h1: int, e0: int, e1: int, n: int, where: str) -> 
     sp = usb.AclPacketSplitter(out.append)
     wire = a[1:] + _B(h0, h1, 1, 0, e1)
     c = cut - 1
-    sp.feed(wire[:c])
-    sp.feed(wire[c:])
+    try:
+        with cpu_deadline(20):
+            sp.feed(wire[:c])
+            sp.feed(wire[c:])
+    except Stalled:
+        return False
     return [bytes(x) for x in out] == [a[1:], _B(h0, h1, 1, 0, e1)]
 
 
